@@ -18,8 +18,8 @@ verus! {
 #[verifier::reject_recursive_types(K)]
 #[verifier::reject_recursive_types(V)]
 pub struct HashMap<K, V> { _p: core::marker::PhantomData<(K, V)> }
-pub struct AiTranscript { pub _opaque: () }
-pub struct WorkingLogEntry { pub _opaque: () }
+#[verifier::external_body] pub struct AiTranscript { _o: () }
+#[verifier::external_body] pub struct WorkingLogEntry { _o: () }
 pub enum GitAiError { Generic(String) }
 
 //#item file=src/authorship/working_log.rs kind=struct name=AgentId
@@ -304,19 +304,19 @@ fn update_prompts_to_latest(checkpoints: &mut [Checkpoint]) -> (r_: Result<(), G
 
 // ================================================================================================ region pc_flow of post_commit
 // ------------------------------------------------------------------------------------------------ stand-in types
-pub struct Repository { pub _opaque: () }
-pub struct RepoStorage { pub _opaque: () }
-pub struct PersistedWorkingLog { pub _opaque: () }
-pub struct VirtualAttributions { pub _opaque: () }
+#[verifier::external_body] pub struct Repository { _o: () }
+#[verifier::external_body] pub struct RepoStorage { _o: () }
+#[verifier::external_body] pub struct PersistedWorkingLog { _o: () }
+#[verifier::external_body] pub struct VirtualAttributions { _o: () }
 #[verifier::external_body]
 #[verifier::reject_recursive_types(K)]
 pub struct HashSet<K> { _p: core::marker::PhantomData<K> }
-pub struct Message { pub _opaque: () }
-pub struct PromptMeta { pub _opaque: () }
-pub struct AttestationsT { pub _opaque: () }
-pub struct CommitStatsT { pub _opaque: () }
-pub struct ApiContext { pub _opaque: () }
-pub struct ApiClient { pub _opaque: () }
+#[verifier::external_body] pub struct Message { _o: () }
+#[verifier::external_body] pub struct PromptMeta { _o: () }
+#[verifier::external_body] pub struct AttestationsT { _o: () }
+#[verifier::external_body] pub struct CommitStatsT { _o: () }
+#[verifier::external_body] pub struct ApiContext { _o: () }
+#[verifier::external_body] pub struct ApiClient { _o: () }
 /// BTreeMap<String, PromptRecord> (the note's prompt records); seen through two views
 #[verifier::external_body] pub struct PromptMap { _o: () }
 /// session hash -> the conversation text stored with the record (`messages`)
